@@ -30,7 +30,8 @@ func (i ident) is(name string) bool {
 
 var c09Virtual = []string{"local", "peers", "peers_v2", "schema_keyspaces", "schema_columnfamilies", "schema_columns", "schema_usertypes"}
 
-var c09Keyspaces = []string{"", "system", "SYSTEM", `"system"`, "ks1", `"Ks3"`, "system_schema"}
+// quoted spellings that are not all lower case name user keyspaces, not the system keyspace
+var c09Keyspaces = []string{"", "system", "SYSTEM", `"system"`, "ks1", `"Ks3"`, "system_schema", `"System"`, `"SYSTEM"`}
 var c09Qualifiers = []string{"", "system", "SYSTEM", "SyStEm", `"system"`, `"SYSTEM"`, "ks1", `"Ks3"`, "system_schema", "system_auth"}
 var c09Tables = []string{"local", "peers", "peers_v2", "schema_keyspaces", "schema_columnfamilies", "schema_columns", "schema_usertypes",
 	"LOCAL", "Peers", `"local"`, `"peers"`, `"LOCAL"`, "locals", "peer", "peers_v3", "t", "system", "schema_tables"}
@@ -70,7 +71,7 @@ func c09(e *Env) {
 	}
 	w := f.w
 	for _, n := range w.Nodes {
-		n.Keyspaces = map[string]bool{"system": true, "ks1": true, "Ks3": true, "system_schema": true}
+		n.Keyspaces = map[string]bool{"system": true, "ks1": true, "Ks3": true, "system_schema": true, "System": true, "SYSTEM": true}
 	}
 	type stmtRec struct {
 		req      *world.ClientReq
